@@ -658,13 +658,33 @@ fn main() {
     let mut run = Run::from_args("C19", "commands", "model_checking");
     let mut shards = run.tier.pick(5, 5);
     let mut only: Option<(usize, usize, Option<usize>)> = None;
+    let mut gate_only: Option<(usize, usize)> = None;
     if let Some(file) = run.replay_file.clone() {
         let doc: Json = serde_json::from_slice(&std::fs::read(&file).expect("replay file")).expect("replay json");
         let r = &doc["replay"];
+        if r["stage"] == "gate" {
+            gate_only = Some((r["holder"].as_u64().unwrap() as usize, r["sample"].as_u64().unwrap() as usize));
+        }
         shards = r["shards"].as_u64().unwrap_or(shards as u64) as usize;
-        only = Some((r["role"].as_u64().unwrap() as usize, r["shard"].as_u64().unwrap_or(0) as usize, r["index"].as_u64().map(|i| i as usize)));
+        if gate_only.is_none() { only = Some((r["role"].as_u64().unwrap() as usize, r["shard"].as_u64().unwrap_or(0) as usize, r["index"].as_u64().map(|i| i as usize))); }
+    }
+    // the META command-gate matrix (every AST variant x single-permission Principals)
+    if gate_only.is_some() || only.is_none() {
+        let g = util::block_on(vgov::gate::run(gate_only));
+        run.add("evaluations", g.cells);
+        run.add("gate_cells", g.cells);
+        run.add("gate_refusals_demanded", g.refusals_demanded);
+        run.add("gate_allowed_but_refused", g.allowed_but_refused);
+        run.set("gate_meta_variants", json!(g.rows));
+        for v in g.violations {
+            run.violation(v);
+        }
+        for s in g.samples {
+            run.sample(s);
+        }
     }
     let units: Vec<(usize, usize)> = match only {
+        _ if gate_only.is_some() => vec![],
         Some((r, s, _)) => vec![(r, s)],
         None => (0..3).flat_map(|r| (0..shards).map(move |s| (r, s))).collect(),
     };
@@ -700,7 +720,7 @@ fn main() {
     run.add("states", states.len() as u64);
     run.set("refusals_by_code", json!(refused));
     run.set("protected_field_spellings", json!(protected_names()));
-    run.rule("every field-name position of every KML clause family x every protected field spelling, as text and as a pre-parsed tree; ordinary mutations of all 16 clause families each also as PREVIEW KML / VALIDATE KML / dry run with a self-declared purpose, including writes to existing derived elements (Assertions citing Evidence, Evidence with a source, an Activity with inputs) whose inputs the host relabelled since; control-plane look-alike statements; KQL/META reads; x 3 roles (owner, broad writer, restricted reader); the field-name section is spread over 5 scenario Nexus instances per role, the rest runs in fixed order on the first; EffectiveAuthority::authorize over all permissions x all elements for 4 Principals is compared before/after each whole sequence; distinct = governance+element-block states a command was sent from");
+    run.rule("every field-name position of every KML clause family x every protected field spelling, as text and as a pre-parsed tree; ordinary mutations of all 16 clause families each also as PREVIEW KML / VALIDATE KML / dry run with a self-declared purpose, including writes to existing derived elements (Assertions citing Evidence, Evidence with a source, an Activity with inputs) whose inputs the host relabelled since; control-plane look-alike statements; KQL/META reads; x 3 roles (owner, broad writer, restricted reader); the field-name section is spread over 5 scenario Nexus instances per role, the rest runs in fixed order on the first; EffectiveAuthority::authorize over all permissions x all elements for 4 Principals is compared before/after each whole sequence; distinct = governance+element-block states a command was sent from. gate: every variant of the META command tree (MetaCommand x DescribeTarget x ListTarget, with and without AS OF where the table distinguishes them: 39 rows named by an exhaustive match, so a new variant does not compile until it has a row and a sample command) x 10 Principals holding exactly one unscoped permission each (nothing, discover, read, read_history, search, export, project, create), read+discover, or all six; the owner wrote under an idempotency key first, so DESCRIBE TRANSACTION by id and BY IDEMPOTENCY KEY name a journal entry that exists; wherever the documented permission table asks for a permission AuthModel says the Principal does not hold at Space scope, the answer must be NotAuthorized");
     run.assume("commands reach the engine through anda_kip::execute_request (text or `ast` operation); the control plane holds every record kind except approvals (spending an approval is documented behaviour); a PURGE leaving the documented stub {purged, content_digest} in the erased element's block is not counted as a change");
     run.finish();
 }
